@@ -152,17 +152,15 @@ func check(c *Case) []fail {
 			got := strings.HasPrefix(o, "1:")
 			if got != exp {
 				key := "pim:other"
-				hasFStar := false
-				for _, p := range aps {
-					for _, st := range p {
-						hasFStar = hasFStar || st == "F*"
-					}
-				}
-				if c.GPTd {
-					key = "pim:typedef-not-unwrapped"
-				} else if hasFStar && !c.Black {
+				switch {
+				case !c.Black && structStarAbove(aps, c.GPAP):
+					// a '.*' of the mask covers a prefix of the query and the query goes on below the field it picks:
+					// the shared 'all' node carries the type tag of the struct's FIRST field
 					key = "pim:struct-star-takes-first-field-type"
-				} else if c.Black && endsWithStar(aps) {
+				case c.GPTd && passesWithTypedefsExpanded(w, c, exp):
+					// same IDL with every typedef written out answers as expected: the typedef is the cause
+					key = "pim:typedef-not-unwrapped"
+				case c.Black && endsWithStar(aps):
 					key = "pim:black-terminal-star"
 				}
 				fs = append(fs, fail{key, fmt.Sprintf("PathInMask(%q) differs from the path set %v", vl.UnHex(c.GP), aps), exp, got})
@@ -356,6 +354,52 @@ func checkCache(c *Case) []fail {
 		}
 	}
 	return fs
+}
+
+// structStarAbove: some path of the mask has its '.*' at position i, agrees with the query before i, and the
+// query has at least one more step below the field chosen at i.
+func structStarAbove(aps [][]string, q []string) bool {
+	for _, p := range aps {
+		for i, st := range p {
+			if st != "F*" {
+				continue
+			}
+			if len(q) <= i+1 {
+				break
+			}
+			ok := true
+			for j := 0; j < i; j++ {
+				if !stepMatch(p[j], q[j]) {
+					ok = false
+					break
+				}
+			}
+			if ok {
+				return true
+			}
+		}
+	}
+	return false
+}
+
+// passesWithTypedefsExpanded re-runs a getpath case on the same schema with every typedef reference replaced
+// by its target (enums, structs and field ids kept) and tells whether PathInMask then answers `exp`.
+func passesWithTypedefsExpanded(w *World, c *Case, exp bool) bool {
+	w2, err := world(w.Sch.expandedIDL())
+	if err != nil {
+		return false
+	}
+	root, _, err := parseTyToks(c.Root)
+	if err != nil {
+		return false
+	}
+	root = w.Sch.deepUnwrap(root)
+	m, _, _ := w2.newMask(root, c.Black, c.paths())
+	if m == nil {
+		return false
+	}
+	o, pk, hang := w2.getPath(c, m, root, vl.UnHex(c.GP))
+	return pk == "" && !hang && strings.HasPrefix(o, "1:") == exp
 }
 
 func hasKey(fs []fail, key string) *fail {
